@@ -58,6 +58,7 @@ structure Opts where
   infoFile : Option String := none
   wildcardFile : Option String := none
   inputHasQualities : Bool := true
+  interleaved : Bool := false
 deriving Inhabited
 
 def strContains (s pat : String) : Bool := (s.splitOn pat).length > 1
@@ -240,11 +241,24 @@ def makeModsPaired (o : Opts) (ads1 ads2 : List Matchable) : Except Err (List PM
     (match o.rename with | some t => [.pairedRename t t] | none => [])
 
 def makeSingle (o : Opts) (ads : List Matchable) : Except Err (SinglePipeline × Files) := do
+  if o.untrimmedPaired.isSome || o.pairAdapters then throw .cmdline
   let (steps, f) ← makeSteps o (namesOf ads) []
   let mods ← makeModsSingle o ads
   return (⟨ads, mods, steps⟩, f)
 
+/-- `check_arguments` (the part that concerns output files and `--pair-adapters`) -/
+def checkArguments (o : Opts) : Except Err Unit := do
+  if !o.paired then
+    if o.untrimmedPaired.isSome || o.pairAdapters then throw .cmdline
+  if o.paired && !o.interleaved then
+    if o.pairedOutput.isNone then throw .cmdline
+    if o.untrimmedOut.isSome != o.untrimmedPaired.isSome then throw .cmdline
+    if o.tooShortOut.isSome != o.tooShortPaired.isSome then throw .cmdline
+    if o.tooLongOut.isSome != o.tooLongPaired.isSome then throw .cmdline
+  if o.pairAdapters && o.times != 1 then throw .cmdline
+
 def makePaired (o : Opts) (ads1 ads2 : List Matchable) : Except Err (PairedPipeline × Files) := do
+  checkArguments o
   let (steps, f) ← makeSteps o (namesOf ads1) (namesOf ads2)
   let mods ← makeModsPaired o ads1 ads2
   return (⟨ads1, ads2, mods, steps⟩, f)
